@@ -1,5 +1,6 @@
 import BufModel.Graph
 import BufModel.Targeting
+import BufModel.BucketID
 import BufGen.Wkt
 import Driver.Util
 /-
@@ -25,6 +26,14 @@ import Driver.Util
                                            the modules of buf.yaml
 
   answer:  mods=… <TAB> deps=… <TAB> dag=… <TAB> ls=…
+
+  BucketIDs / OpaqueIDs of the local modules of a workspace (BufModel.BucketID):
+
+    bid <TAB> v2 <TAB> <entry>,<entry>…    the `modules:` entries of a v2 buf.yaml in file order;
+                                           entry = hex(path as written)~hex(name) (`-` = empty)
+        answer  ok/hex(BucketID)~hex(OpaqueID),…  per entry, in the same order  |  err/<PErr tag>
+    bid <TAB> v1 <TAB> <dir>,<dir>…        the `directories:` of a buf.work.yaml as written (hex)
+        answer  ok/hex(BucketID),…  in the order of BufWorkYAMLFile.DirPaths()  |  err/<WErr tag>
 -/
 namespace Driver.C10
 open BufModel.Path BufModel.Graph BufModel.Targeting Driver
@@ -149,6 +158,15 @@ def answer (b : Built) : String :=
   "mods=" ++ showMods b.sel ++ "\tdeps=" ++ ";".intercalate ((List.range n).map fun m => showDeps (moduleDeps ws m))
     ++ "\tdag=" ++ showDag (toDAG ws) ++ "\tls=" ++ showLs (lsFiles ws (isTargetIn b.tws))
 
+/-- `hex(path)~hex(name)` of a `bid v2` line. -/
+def parseEntry (s : String) : Option BufModel.BucketID.Entry :=
+  match s.splitOn "~" with
+  | [p, n] => do
+    let p ← hexL p
+    let n ← hexL n
+    some { raw := p, name := if n = [] then none else some n }
+  | _ => none
+
 def handle : List String → String
   | ["ws", s] =>
     match parseWs s with
@@ -161,6 +179,20 @@ def handle : List String → String
       match diskAdds kind gs with
       | none => "bad-op"
       | some adds => answer (buildFrom adds gs.flatten)
+  | ["bid", "v2", s] =>
+    match (parseList s ",").mapM parseEntry with
+    | none => "bad-op"
+    | some es =>
+      match BufModel.BucketID.v2Resolve es with
+      | .error e => "err/" ++ e.tag
+      | .ok r => "ok/" ++ ",".intercalate (r.map fun x => enc (l2s x.1) ++ "~" ++ enc (l2s x.2))
+  | ["bid", "v1", s] =>
+    match (parseList s ",").mapM hexL with
+    | none => "bad-op"
+    | some ds =>
+      match BufModel.BucketID.v1Resolve ds with
+      | .error e => "err/" ++ e.tag
+      | .ok r => "ok/" ++ ",".intercalate (r.map fun x => enc (l2s x))
   | _ => "bad-op"
 
 def run : IO Unit := runLines handle
